@@ -224,10 +224,11 @@ func (d *decodingReader) decode(f frame.Frame) error {
 		if err != nil {
 			return unexpectedEOF(err)
 		}
-		// This is guaranteed by gob, but it seems worthy of some defensive programming here.
-		// It's also an extra check against the correctness of the codec.
-		if pHdr.Data != sh.Data {
-			panic("gob reallocated a slice")
+		// Gob decodes in place when the encoded column has exactly the
+		// batch's length. Anything else means that the batch length and
+		// the column disagree, i.e., the stream is damaged.
+		if pHdr.Data != sh.Data || pHdr.Len != sh.Len {
+			return errors.E(errors.Integrity, fmt.Errorf("column %d has %d rows, batch length is %d", col, pHdr.Len, sh.Len))
 		}
 	}
 	sum := d.crc.Sum32()
